@@ -136,7 +136,8 @@ def conversion(args):
         if not args.skip_geomcomp:
             writeT4GeomComp(dic_volumes_t4, mcnp_new_dict, ofile)
         if not args.skip_boundary_conditions:
-            writeT4BoundCond(dic_surf_mcnp, ofile)
+            writeT4BoundCond(dic_surf_mcnp, ofile, dic_surface_t4,
+                             dic_volumes_t4)
 
     if skipped_cells:
         print('\nNOTE: the following cells have been omitted from the '
